@@ -24,7 +24,7 @@ HL2PI = math.log(math.sqrt(2 * math.pi))
 OBJECTIVES = ["ELBO", "ELBO-entropy", "VR", "CUBO", "KLpq"]
 # pairs whose q can also be handed over as a bare Distribution (no JointDistributionModel)
 REGULAR = ["ge", "gp", "nn", "bb", "ge_exp", "bb_sig", "nn_aff", "lnn_exp", "two"]
-BARE_OK = {"ge", "gp", "nn", "bb", "nn_aff", "lnn_exp", "ge_vec", "mvn"}
+BARE_OK = {"ge", "gp", "nn", "bb", "nn_aff", "lnn_exp", "ge_vec", "mvn", "mvn_full"}
 NO_ENTROPY = {"ge_exp", "bb_sig"}     # q = density(z(u)) + Jacobian: q.entropy() is not H(q_u)
 
 
@@ -130,7 +130,7 @@ def gen_hyper(rng, pair):
     if pair in ("bb", "bb_sig"):
         N = rng.randint(1, 12)
         h.update(ba=logu(0.6, 5), bb=logu(0.6, 5), N=N, k=rng.randint(0, N))
-    if pair == "mvn":
+    if pair in ("mvn", "mvn_full"):
         def spd():
             s1, s2, r = logu(0.4, 2), logu(0.4, 2), rng.uniform(-0.7, 0.7)
             return [[s1 * s1, r * s1 * s2], [r * s1 * s2, s2 * s2]]
@@ -140,6 +140,8 @@ def gen_hyper(rng, pair):
         h.update(m0=[rng.uniform(-1, 1), rng.uniform(-1, 1)], S0=spd(), sig=sig,
                  S=[[sig[0] ** 2, 0.0], [0.0, sig[1] ** 2]],
                  x=[round(rng.uniform(-2, 2), 3), round(rng.uniform(-2, 2), 3)])
+        if pair == "mvn_full":      # the textbook form: multivariate normal likelihood, loc = the latent mean
+            h["S"] = spd()
     return h
 
 
@@ -351,7 +353,7 @@ def build_spec(h, qclass, perturb):
             s.coq = (lambda z: f"{fn[0]} NumI {ab} {lB} {nk} {lC} (ofQ NumI {q(z[0])})",
                      lambda z: f"{fn[1]} NumI {ab} {lBp} {nk} (ofQ NumI {q(z[0])})",
                      f"bb_logml NumI {lB} {lBp} {lC}")
-    if pair == "mvn":
+    if pair in ("mvn", "mvn_full"):
         m0, S0, S, x = h["m0"], h["S0"], h["S"], h["x"]
         S0i, _ = _inv2(S0)
         Si, _ = _inv2(S)
@@ -363,7 +365,10 @@ def build_spec(h, qclass, perturb):
         qS = [[S1[i][j] * f2 for j in range(2)] for i in range(2)]
         objs.append(P("mu", [0.0, 0.0]))
         s.latents.append("mu")
-        jd += [D("like", "torch.distributions.Normal", P("data", x), {"loc": "mu", "scale": h["sig"]}),
+        like = (D("like", "torch.distributions.Normal", P("data", x), {"loc": "mu", "scale": h["sig"]})
+                if pair == "mvn" else
+                D("like", "torch.distributions.MultivariateNormal", P("data", x), {"loc": "mu", "covariance_matrix": S}))
+        jd += [like,
                D("prior", "torch.distributions.MultivariateNormal", "mu",
                  {"loc": m0, "covariance_matrix": S0})]
         qd.append({"id": "q.mu", "type": "MultivariateNormal", "x": "mu",
@@ -442,6 +447,9 @@ def gen_cases(rng, tier):
                 for shape in ([1], [2], [3], [1, 3], [3, 2]):
                     for qclass in ("joint", "bare"):
                         cases.append(mk(obj, par, shape, qclass, True, pair))
+        for obj, par in [("ELBO", None), ("VR", 0.5), ("CUBO", 2.0), ("KLpq", None)]:
+            for shape in ([1], [3], [2, 2]):
+                cases.append(mk(obj, par, shape, "bare", True, "mvn_full"))
         # every pair that has a Coq density gets its densities compared on a few draws
         for pair in ("ge", "gp", "nn", "bb", "ge_exp", "bb_sig", "nn_aff", "lnn_exp"):
             cases.append(dict(mk("ELBO", None, [3], "joint", True, pair), dens=True))
@@ -461,7 +469,9 @@ def case_key(c):
     q = bare-Distribution: a factorised torch distribution wrapped directly, q() returns one
     value per component ([..., d], d = 1 or 2) -- one root cause, so S = 1 / S > 1 are merged."""
     pair, joint, shape = c["hyper"]["pair"], c["qclass"] == "joint", c["shape"]
-    if not joint and pair != "mvn":
+    if pair == "mvn_full":
+        return "C14:p=joint[MultivariateNormal-likelihood]"
+    if not joint and pair not in ("mvn", "mvn_full"):
         return f"C14:{c['obj']}:{'[S]' if len(shape) == 1 else '[S,K]'}:q=bare-Distribution"
     if pair == "mvn" and joint and c["obj"] == "ELBO-entropy" and len(shape) == 1:
         return "C14:ELBO-entropy:[S]:q=joint[MultivariateNormal]"
@@ -870,6 +880,14 @@ def run(tier, seed, replay=None):
                 "unconstrained parameter), two-block mean field, 2-vector gamma-exponential, bivariate normal; "
                 "hyper-parameters log-uniform, 1-5 observations; 3 evaluation requests per case (2nd immediately "
                 "after the 1st, 3rd after a parameter-changed event); non-trivial = more than one sample")
+    rep.assumptions = [
+        "tight_* : the sample list (and every row of a [S,K] table) is non-empty; alpha <> 1; n <> 0",
+        "bayes_constant_normal_* : sigma <> 0, s0 <> 0 and the closed-form posterior relation nn_post; affine variant: "
+        "scale <> 0, ascale = |scale| > 0, s1 > 0",
+        "lgamma, log-beta, ln C(n,k), ln sqrt(2 pi) enter the Bayes-constant theorems as arbitrary reals (no property of "
+        "lgamma is used); their numerical values in the runs come from math.lgamma",
+        "two-block, 2-vector gamma-exponential and bivariate-normal pairs: exactness checked on the implementation against "
+        "harness closed forms only (their Bayes constants are sums / matrix identities not restated in Coq)"]
     rep.extra = dict(input_distribution=dist, model_undefined=undefined,
                      traces_validated_against_impl=validated, density_values_validated=dens_validated,
                      out_of_scope=["ELBO(score=True) and KLpqImportance return surrogate losses whose value is not "
